@@ -1844,7 +1844,7 @@ func (f *formatter) writeStartMaybeCompact(node ast.Node, forceCompact bool) {
 			// a newline.
 			f.P("")
 		}
-	} else if !compact && nodeNewlineCount > 1 {
+	} else if !compact && nodeNewlineCount > 1 && f.lastWritten != 0 {
 		// If the previous node is an open brace, this is the first element
 		// in the body of a composite type, so we don't want to write a
 		// newline. This makes it so that trailing newlines are removed.
@@ -2059,7 +2059,7 @@ func (f *formatter) writeMultilineCommentsMaybeCompact(comments ast.Comments, fo
 	compact := forceCompact || isOpenBrace(f.previousNode)
 	for i := range comments.Len() {
 		comment := comments.Index(i)
-		if !compact && newlineCount(comment.LeadingWhitespace()) > 1 {
+		if !compact && f.lastWritten != 0 && newlineCount(comment.LeadingWhitespace()) > 1 {
 			// Newlines between blocks of comments should be preserved.
 			//
 			// For example,
